@@ -62,6 +62,8 @@ pub struct Wire {
     /// Set when the halves are dropped by zlink.
     pub read_half_dropped: bool,
     pub write_half_dropped: bool,
+    /// Who to wake when something is queued for reading (registered when `read` returned `Pending`).
+    pub read_waker: crate::WakeSlot,
 }
 
 pub type WireRef = Rc<RefCell<Wire>>;
@@ -78,10 +80,12 @@ impl Wire {
     pub fn push_bytes(&mut self, b: &[u8]) {
         if !b.is_empty() {
             self.rx.push_back(Rx::Bytes(b.to_vec()));
+            self.read_waker.fire();
         }
     }
     pub fn push(&mut self, ev: Rx) {
         self.rx.push_back(ev);
+        self.read_waker.fire();
     }
     /// All written bytes concatenated.
     pub fn written(&self) -> Vec<u8> {
@@ -129,7 +133,7 @@ fn io_err() -> zlink_core::Error {
 impl ReadHalf for VRead {
     async fn read(&mut self, buf: &mut [u8]) -> zlink_core::Result<usize> {
         let wire = self.0.clone();
-        poll_fn(move |_cx| {
+        poll_fn(move |cx| {
             let mut w = wire.borrow_mut();
             w.read_polls += 1;
             w.min_read_buf = w.min_read_buf.min(buf.len());
@@ -140,11 +144,14 @@ impl ReadHalf for VRead {
                         return if w.eof_when_empty {
                             Poll::Ready(Ok(0))
                         } else {
+                            w.read_waker.register(cx);
                             Poll::Pending
                         };
                     }
                     Some(Rx::Pending) => {
+                        // "not ready yet, try again": a yield, so the task asks to be polled again
                         w.rx.pop_front();
+                        cx.waker().wake_by_ref();
                         return Poll::Pending;
                     }
                     Some(Rx::Eof) => return Poll::Ready(Ok(0)),
@@ -193,12 +200,13 @@ impl WriteHalf for VWrite {
             let mut w = wire.borrow_mut();
             w.write_pending_left = Some(w.write_pending_polls);
         }
-        poll_fn(move |_cx| {
+        poll_fn(move |cx| {
             let mut w = wire.borrow_mut();
             w.write_polls += 1;
             match w.write_pending_left {
                 Some(n) if n > 0 => {
                     w.write_pending_left = Some(n - 1);
+                    cx.waker().wake_by_ref();
                     return Poll::Pending;
                 }
                 _ => {}
@@ -223,6 +231,15 @@ pub struct ListenQueue {
     pub pending: VecDeque<WireRef>,
     pub accepted: usize,
     pub accept_polls: usize,
+    pub accept_waker: crate::WakeSlot,
+}
+
+impl ListenQueue {
+    /// A client connects.
+    pub fn release(&mut self, w: WireRef) {
+        self.pending.push_back(w);
+        self.accept_waker.fire();
+    }
 }
 pub type ListenRef = Rc<RefCell<ListenQueue>>;
 
@@ -238,7 +255,7 @@ impl zlink_core::Listener for VListener {
     type Socket = VSocket;
     async fn accept(&mut self) -> zlink_core::Result<zlink_core::Connection<VSocket>> {
         let q = self.0.clone();
-        poll_fn(move |_cx| {
+        poll_fn(move |cx| {
             let mut q = q.borrow_mut();
             q.accept_polls += 1;
             match q.pending.pop_front() {
@@ -246,7 +263,10 @@ impl zlink_core::Listener for VListener {
                     q.accepted += 1;
                     Poll::Ready(Ok(zlink_core::Connection::new(VSocket(w))))
                 }
-                None => Poll::Pending,
+                None => {
+                    q.accept_waker.register(cx);
+                    Poll::Pending
+                }
             }
         })
         .await
